@@ -558,6 +558,27 @@ pub fn run_stream(name: &str, thorough: bool, rng: &mut Rng, o: &mut Out) {
                 o.vcmp(&a, &b);
             }
         }
+        "vsort" => {
+            // lists with precedence-equal elements that differ in build metadata (stability is observable)
+            for _ in 0..6000 * scale {
+                let n = rng.below(9);
+                let mut vs: Vec<Version> = Vec::new();
+                let seed = gen_version(rng, true);
+                let near = neighbours(&seed);
+                for _ in 0..n {
+                    let mut v = match rng.below(4) {
+                        0 => gen_version(rng, true),
+                        1 => seed.clone(),
+                        _ => rng.pick(&near).clone(),
+                    };
+                    if rng.chance(1, 3) {
+                        v.build = vec![al(*rng.pick(&["b1", "b2", "zz"]))];
+                    }
+                    vs.push(v);
+                }
+                o.vsort(&vs);
+            }
+        }
         "vfmt" => {
             for _ in 0..5000 * scale {
                 let a = gen_version(rng, true);
@@ -1144,6 +1165,19 @@ pub fn replay_line(line: &str, o: &mut Out) {
             },
             _ => bad(o),
         },
+        "vsort" => {
+            let mut vs = Vec::new();
+            for x in f.iter().skip(1) {
+                if *x == "?" {
+                    break;
+                }
+                match dec_version(x) {
+                    Some(v) => vs.push(v),
+                    None => break,
+                }
+            }
+            o.vsort(&vs);
+        }
         "maxsat" | "minsat" => {
             // arguments: range text, then versions, then (possibly) the old answer
             let t = f.get(1).and_then(|x| unhex(x));
